@@ -84,6 +84,45 @@ theorem C05_conforming_trace_sound (sk : Sk) (trace : List Access) (cursor : Nat
   have := expected_sound sk 0 hw a ha
   exact ⟨this.1, by omega⟩
 
+/-- **soundness of the generalised checker (state inside `if` / `match` arms).**  A call need not touch every cell: it
+touches, in layout order, the cells outside arms and those of the arms taken.  A trace accepted by `conformsSel` leaves the
+cursor at 0, is an in-order sub-selection of the accesses the layout prescribes (`List.Sublist`), and so touches, access by
+access, exactly the words of a leaf cell of the right kind at its layout offset, inside `total_size` -/
+theorem C05_selected_trace_sound (sk : Sk) (trace : List Access) (cursor : Nat)
+    (hw : WF sk = true) (h : conformsSel sk trace cursor = true) :
+    cursor = 0 ∧ trace.Sublist (expectedTrace sk 0) ∧ ∀ a ∈ trace, TouchesLeaf sk 0 a ∧ a.pos + a.size ≤ sk.size := by
+  obtain ⟨hc, hs⟩ := conformsSel_sublist sk trace cursor h
+  refine ⟨hc, hs, fun a ha => ?_⟩
+  have := expected_sound sk 0 hw a (hs.subset ha)
+  exact ⟨this.1, by omega⟩
+
+/-- an accepted call of a function instance with `self` reads `self` first and writes it last, at the start of the region -/
+theorem C05_selected_trace_self_first_last (s : Nat) (rest : List Sk) (trace : List Access) (cursor : Nat)
+    (h : conformsSel (.fn (.feed s :: rest)) trace cursor = true) :
+    ∃ mid, trace = ⟨.get, 0, s⟩ :: mid ++ [⟨.set, 0, s⟩] := by
+  simp only [conformsSel, rootEntered, Bool.and_eq_true, decide_eq_true_eq, beq_iff_eq] at h
+  obtain ⟨⟨hg, hsel⟩, _⟩ := h
+  simp only [selTrace, hg, if_true, Nat.zero_add] at hsel
+  cases hr : selTraceL rest s trace.tail with
+  | none => simp [hr] at hsel
+  | some t1 =>
+    simp only [hr] at hsel
+    split at hsel
+    · rename_i hs
+      simp only [Option.some.injEq] at hsel
+      obtain ⟨pre1, e1, _⟩ := selTraceL_sublist rest s trace.tail t1 hr
+      refine ⟨pre1, ?_⟩
+      have e2 := head?_eq_some hs
+      rw [hsel] at e2
+      rw [head?_eq_some hg, e1, e2]
+      simp
+    · simp at hsel
+
+/-- the strict checker is the special case in which no cell is skipped: whatever it accepts, the generalised statement holds -/
+theorem C05_conforming_trace_is_selected (sk : Sk) (trace : List Access) (cursor : Nat)
+    (h : conforms sk trace cursor = true) : cursor = 0 ∧ trace.Sublist (expectedTrace sk 0) :=
+  conforms_sublist sk trace cursor h
+
 /-- the expected trace itself stays inside the storage sized from the layout (`execute_idx` sizes it with `total_size`) -/
 theorem C05_expected_in_bounds (sk : Sk) (b : Nat) (hw : WF sk = true) :
     ∀ a ∈ expectedTrace sk b, b ≤ a.pos ∧ a.pos + a.size ≤ b + sk.size := by
@@ -109,6 +148,20 @@ example :
     WF sk = true ∧
     expectedTrace sk 0 = [⟨.get, 0, 2⟩, ⟨.mem, 2, 1⟩, ⟨.set, 0, 2⟩, ⟨.delay, 3, 5⟩, ⟨.get, 8, 1⟩, ⟨.mem, 9, 1⟩, ⟨.set, 8, 1⟩] ∧
     sk.size = 10 := by
+  decide +kernel
+
+/-! non-vacuity of the generalised checker: `dsp() = if c { counter() } else { counter()*100 } ; mem` — layout
+`F[F[feed 1], F[feed 1], mem]`: a call in which the `else` arm runs touches the second instance and the `mem`; the strict
+checker rejects it; entering an instance without writing `self` back, an access at a wrong offset, or out of order is rejected -/
+example :
+    let sk := Sk.fn [.fn [.feed 1], .fn [.feed 1], .mem 1]
+    conformsSel sk [⟨.get, 1, 1⟩, ⟨.set, 1, 1⟩, ⟨.mem, 2, 1⟩] 0 = true ∧
+    conformsSel sk [⟨.get, 0, 1⟩, ⟨.set, 0, 1⟩, ⟨.mem, 2, 1⟩] 0 = true ∧
+    conforms sk [⟨.get, 1, 1⟩, ⟨.set, 1, 1⟩, ⟨.mem, 2, 1⟩] 0 = false ∧
+    conformsSel sk [⟨.get, 1, 1⟩, ⟨.mem, 2, 1⟩] 0 = false ∧
+    conformsSel sk [⟨.get, 1, 1⟩, ⟨.set, 1, 1⟩, ⟨.mem, 3, 1⟩] 0 = false ∧
+    conformsSel sk [⟨.mem, 2, 1⟩, ⟨.get, 1, 1⟩, ⟨.set, 1, 1⟩] 0 = false ∧
+    conformsSel sk [⟨.get, 1, 1⟩, ⟨.set, 1, 1⟩, ⟨.mem, 2, 1⟩] 1 = false := by
   decide +kernel
 
 end Mimium.Layout
